@@ -18,6 +18,9 @@ import (
 type Behaviour struct {
 	Delay time.Duration // wait this long (or until ctx ends) before answering
 	Hold  chan struct{} // if non-nil, additionally wait until closed (or ctx ends)
+	// Snapshot: the answer is what the service held when the request ARRIVED (a reply that is slow on its way
+	// back) instead of what it holds when the wait is over (a request that is slow on its way in).
+	Snapshot bool
 	Fail  error         // if non-nil, answer with this error
 	// Plain makes an immediate failure (no Delay/Hold) report Fail even when the request context
 	// has already ended, the way a client does that fails before it ever looks at the context
@@ -155,6 +158,7 @@ func (s *Service) do(ctx context.Context, name string, cond bool, old uint32) (*
 	if s.Behave != nil {
 		b = s.Behave(r)
 	}
+	snap, snapOK := s.active[name]
 	s.mu.Unlock()
 
 	var ctxErr error
@@ -192,6 +196,9 @@ func (s *Service) do(ctx context.Context, name string, cond bool, old uint32) (*
 		return nil, b.Fail
 	}
 	v, ok := s.active[name]
+	if b.Snapshot {
+		v, ok = snap, snapOK
+	}
 	if !ok {
 		r.Outcome = "notfound"
 		return nil, api.ErrNotFound
